@@ -7,6 +7,7 @@
 -/
 import OrasModel.Model.Auth
 import OrasModel.Model.AuthBody
+import OrasModel.Model.AuthFb
 import OrasModel.Driver.Util
 namespace Oras.Driver.Au
 open Oras Oras.Driver
@@ -54,7 +55,8 @@ def step (st : St) (toks : List String) : Option (St × String × String) :=
         cred := ⟨← b "pw", ← b "rt", ← b "at"⟩, forceOAuth2 := ← b "oauth",
         r1 := ← parseReply (← kv rest "r1"), r2 := ← parseReply (← kv rest "r2"),
         fetchOk := if f == "fail" then none else f.toNat? }
-      let (outs, c') := authFlow st.cache i
+      -- `fb=1`: the single-context cache (per-registry fallback entry)
+      let (outs, c') := if (kv rest "fb") == some "1" then authFlowF st.cache i else authFlow st.cache i
       let m := if outs.isEmpty then "-" else " ".intercalate (outs.map showOut)
       let sp := if outs.all (outOk i) && (outs.filter (·.kind == .registry)).length ≤ 3 &&
                    (outs.filter (·.kind == .tokenFetch)).length ≤ 1 then m else "SPEC-VIOLATED"
